@@ -295,7 +295,11 @@ def checkImplReqs (st : ProcEng) (reqs : List ImplReq) : ProcEng Ã— List String 
       let f6 := match capOf with
         | some c => if ids.length â‰¤ c then [] else [s!"C05 proc: a {q.cmd} payload holds {ids.length} events; the capacity negotiated for its run is {c}"]
         | none => []
-      ({ st with sends := sends }, fails ++ f1 ++ f2 ++ f3 ++ f4 ++ f5 ++ f6)) (st, [])
+      -- C12: a category whose negotiated limit is zero is never sent (whatever the request would hold)
+      let f7 := match capOf with
+        | some 0 => [s!"C12 proc: a {q.cmd} request was sent although the limit negotiated for that category of its run is zero"]
+        | _ => []
+      ({ st with sends := sends }, fails ++ f1 ++ f2 ++ f3 ++ f4 ++ f5 ++ f6 ++ f7)) (st, [])
 
 /-- ids of a run that left the model's containers without being sent: evicted by capacity or given up -/
 def noteEvictions (st : ProcEng) (run : String) (before : List (String Ã— Nat)) (incoming : List (String Ã— Nat)) : ProcEng :=
@@ -329,7 +333,7 @@ def procStepCore (st : ProcEng) (t : Tokens) (_impl : Option String) : ProcEng Ã
         | none => none
       let (s, rep, reqs) := processAppInfo st.s run d.2
       ({ st with s := s }, { model := s!"reply={replyStr rep} reqs={canonReqsT st.tainted reqs}" })
-  | "txn" =>
+  | "txn" | "slowtxn" =>
     let run := tokStr t 2
     let txn := parseTxn t
     let before := match getRun st.s run with
@@ -394,7 +398,7 @@ def procStepCore (st : ProcEng) (t : Tokens) (_impl : Option String) : ProcEng Ã
     let order := sortStr (st.s.runs.map (Â·.1))
     let (s, reqs, ret) := cleanExit st.s (fun _ => .ok) order
     let reqs := reqs.filter (fun r => r.cat != .dataUsage)
-    ({ st with s := s }, { model := s!"returned={if ret then 1 else 0} badjson=0 reqs={canonReqsT st.tainted reqs}" })
+    ({ st with s := s }, { model := s!"returned={if ret then 1 else 0} early=0 badjson=0 reqs={canonReqsT st.tainted reqs}" })
   | _ => (st, { model := "bad-op" })
 
 
@@ -511,7 +515,8 @@ def procStep (st0 : ProcEng) (t : Tokens) (impl : Option String) : ProcEng Ã— St
         (if overs.isEmpty then [] else [s!"C01 proc: the final flush re-delivers what was already acknowledged: {overs.take 2 |>.map (fun e => e.1.1 ++ "/" ++ e.1.2)}"]) ++
         (if lost.isEmpty then [] else [s!"C01 proc: metric contributions were lost or altered although the collector accepted everything: {lost.take 2 |>.map (fun e => e.1.1 ++ "/" ++ e.1.2)}"]) ++
         (if missing.isEmpty then [] else [s!"C01 proc: accepted data was neither acknowledged, nor still in flight, nor in the final flush: {missing.take 3 |>.map (fun (k : String Ã— String Ã— Nat) => k.1 ++ "/" ++ k.2.1 ++ "/" ++ toString k.2.2)}"]) ++
-        (if (kvGet (tokenize line) "returned") == some "1" then [] else ["C11 shutdown: the final flush did not return"])
+        (if (kvGet (tokenize line) "returned") == some "1" then [] else ["C11 shutdown: the final flush did not return"]) ++
+        (if (kvGet (tokenize line) "early") == some "1" then ["C11 shutdown: the final flush started before the processor loop had stopped (it was still aggregating a transaction)"] else [])
       else []
     let f5 := match (kvGet (tokenize line) "badjson").bind String.toNat? with
       | some n => if n > 0 then ["C08 payload: a request body sent to the collector is not valid JSON"] else []
